@@ -8,6 +8,7 @@ pair of list-member types in both orders, every group x every pair of members.
 import random
 import xml.etree.ElementTree as ET
 
+from vf.core import hostile_history
 from vf.gen import instances
 from vf.oracles import modelwalk, ref_decl
 
@@ -338,6 +339,11 @@ def run_shard(ctx):
     if ctx.shard % 2 == 0:
         # half of the shards use the base classes' own class-level API first (order of first use must not matter)
         ctx.count("base_classes_used_first", ref_decl.touch_base_classes())
+    if ctx.shard % 4 in (0, 1):
+        # ... and half of them have read other documents before (every broken / unusual predecessor once)
+        for idx in range(len(hostile_history.BODIES) * len(hostile_history.HEADERS)):
+            hostile_history.disturb(None, idx)
+        ctx.count("documents_read_before", len(hostile_history.HISTORY))
     thorough = ctx.tier == "thorough"
     reps = 1 if not thorough else 25
     if ctx.shard == 0:
@@ -368,6 +374,8 @@ def run_shard(ctx):
 def replay(ctx, case):
     classes = ref_decl.all_classes()
     ref_decl.touch_base_classes()
+    for idx in range(len(hostile_history.BODIES) * len(hostile_history.HEADERS)):
+        hostile_history.disturb(None, idx)
     name = case["cls"]
     cls = classes.get(name)
     op = case["op"]
